@@ -401,6 +401,7 @@ def run(ctx):
     ctx.extra["histories"] = n_hist + n_valid
     ctx.extra["borrowed_and_factory_calls"] = borrowed_and_factory_cases(ctx)
     ctx.extra["self_aliasing_appends"] = self_aliasing_appends(ctx)
+    ctx.extra["narrow_scalar_calls"] = H.narrow_scalar_cases(ctx, lambda info, obs, req: ctx.violation(what="a call with narrow NumPy integer scalars differs from the call with the same Python ints", observed=obs, required=req, **info))
     ctx.extra["model_lines_compared"] = H.compare_with_model(ctx, world)
     for line, exp in list(zip(world.lines, world.expect))[5:400:60]:
         ctx.sample({"request": line[:200], "response": exp[:200]})
